@@ -36,6 +36,12 @@ func main() {
 		runK7flush(r, n)
 	case "k7tags":
 		runK7tags(r, n)
+	case "k7reuse":
+		runK7reuse(r, n)
+	case "k7rand":
+		runK7rand(r, n)
+	case "k7storm":
+		runK7storm(r, n)
 	case "k7scen":
 		runK7scen(r, n)
 	case "kpool":
